@@ -350,6 +350,17 @@ def scenarios():
         ("relaxed inline enum vs closed inline enum over the same values in the same object, closed one first",
          {"GammaR": {"type": "object", "properties": {"zmode": {"anyOf": [{"type": "string", "enum": ["on", "off"]}, S]}}}},
          {"GammaR": {"type": "object", "properties": {"asw": {"type": "string", "enum": ["on", "off"]}, "zmode": {"anyOf": [{"type": "string", "enum": ["on", "off"]}, S]}}}}, ("field", "GammaR", "zmode")),
+        ("inline member object next to an array member whose item type derives the same name (category / categories)",
+         {"Product": {"type": "object", "properties": {"category": {"type": "object", "properties": {"id": {"type": "integer"}, "path": S}}}}},
+         {"Product": {"type": "object", "properties": {"categories": {"type": "array", "items": {"type": "object", "properties": {"slug": S}}},
+                                                       "category": {"type": "object", "properties": {"id": {"type": "integer"}, "path": S}}}}}, ("field", "Product", "category")),
+        ("array member next to an inline member object whose name its item type derives (categories / category)",
+         {"Product": {"type": "object", "properties": {"categories": {"type": "array", "items": {"type": "object", "properties": {"slug": S}}}}}},
+         {"Product": {"type": "object", "properties": {"categories": {"type": "array", "items": {"type": "object", "properties": {"slug": S}}},
+                                                       "category": {"type": "object", "properties": {"id": {"type": "integer"}, "path": S}}}}}, ("field", "Product", "categories")),
+        ("union member whose variant type derives the name of a sibling inline member",
+         {"Basket": {"type": "object", "properties": {"item": {"type": "object", "properties": {"sku": S}}}}},
+         {"Basket": {"type": "object", "properties": {"item": {"type": "object", "properties": {"sku": S}}, "items": {"type": "array", "items": {"type": "object", "properties": {"qty": {"type": "integer"}}}}}}}, ("field", "Basket", "item")),
         ("inline enum vs named enum with a superset of values",
          {"HolderE": {"type": "object", "properties": {"v": {"type": "string", "enum": ["a", "b"]}}}}, {"Wide": {"type": "string", "enum": ["a", "b", "c"]}}, ("field", "HolderE", "v")),
     ]
